@@ -76,6 +76,12 @@ func judgeTermination(c *Case, o *outcome, v *harness.Verdict, what string) bool
 		v.Failf("non-termination", "%s did not return", what)
 		return false
 	}
+	if c.Continuous && !o.stopIssued && len(o.aborts) == 0 && o.fake.firstSTH >= 0 && o.returnedAt < c.stopAt() {
+		// continuous mode "carries on with newly published entries": it ends by Stop / cancel only,
+		// whatever (finite) error bursts its get-sth polls meet
+		v.Failf("continuous-returned-unstopped", "%s in continuous mode returned %v at %v although neither Stop nor cancel had been issued (planned for %v); get-sth calls %d of which %d failed", what, o.err, o.returnedAt, c.stopAt(), o.fake.sthCalls, o.fake.sthErrs)
+		return false
+	}
 	if o.late > 0 {
 		v.Failf("callback-after-return", "%d callbacks began after %s had returned", o.late, what)
 	}
@@ -253,6 +259,9 @@ func classify(c *Case, o *outcome, v *harness.Verdict) {
 	}
 	if f.sthErrs > 0 {
 		v.Class("log:get-sth-err")
+	}
+	for k := range f.sthPollErrs {
+		v.Class(fmt.Sprintf("log:get-sth-poll-err-kind%d", k))
 	}
 	if f.firstSTH < 0 {
 		v.Class("log:no-sth-answered")
